@@ -13,5 +13,5 @@ CONSTANTS
   EmitOn = TRUE
 INIT Init
 NEXT Next
-INVARIANTS TypeOK TreeWellFormed NsPrefixUnique NsInherited OpenIsChain FoldAgrees Emit
+INVARIANTS TypeOK TreeWellFormed NsPrefixUnique NsInherited NoEmptyDefaultNs OpenIsChain FoldAgrees Emit
 PROPERTIES NodesOnlyGrow
